@@ -7,11 +7,35 @@
    spec_read and an independent writer spec_encode).  *)
 From Coq Require Import String.
 From Coq Require Import List ZArith NArith Bool Permutation.
-From Tele Require Import Lib.Bytes Lib.BytesN Gen.Consts Model.DecodeStack Model.Layout Model.LayoutRef
+From Tele Require Import Lib.Bytes Lib.BytesN Gen.Consts Gen.GoFns Model.DecodeStack Model.Layout Model.LayoutRef
   Model.Parse Proofs.LayoutArith Proofs.LayoutRead Proofs.LayoutWrite Proofs.WriterFacts
-  Proofs.WriterInv Proofs.ParseFacts Proofs.EncodeFacts Proofs.FormatExtras.
+  Proofs.WriterInv Proofs.ParseFacts Proofs.EncodeFacts Proofs.FormatExtras Proofs.GoFnsLayout.
 Import ListNotations.
 Open Scope N_scope.
+
+(* ---- the model functions ARE the Go functions: round, hash and
+   mappedFile.place of internal/counter/file.go, as translated from the current
+   source into Gen/GoFns.v (explicit uint32 / int64 wrap) on every run, equal
+   the model's for all inputs in the range of their Go types *)
+Theorem C10_round_is_the_go_code :
+  (forall x unit, x < 4294967296 -> 1 <= unit <= 4294967296 ->
+     Z.of_N (round_u32 x unit) = go_round_uint32 (Z.of_N x) (Z.of_N unit)) /\
+  (forall x unit, 1 <= unit -> (Z.of_N x + Z.of_N unit < 9223372036854775808)%Z ->
+     Z.of_N (round_int x unit) = go_round_int (Z.of_N x) (Z.of_N unit)).
+Proof. exact (conj round_u32_is_go round_int_is_go). Qed.
+Print Assumptions C10_round_is_the_go_code.
+
+Theorem C10_hash_is_the_go_code : forall name, Forall (fun c => c < 256) name ->
+  Z.of_N (hash name) = go_hash (map Z.of_N name).
+Proof. exact hash_is_go. Qed.
+Print Assumptions C10_hash_is_the_go_code.
+
+Theorem C10_place_is_the_go_code : forall hdr limit (name : bytes),
+  hdr < 4294967296 -> limit < 4294967296 -> (Z.of_nat (length name) < 4611686018427387904)%Z ->
+  go_mappedFile_place (Z.of_N hdr) (Z.of_N limit) (map Z.of_N name)
+  = (Z.of_N (fst (place hdr limit (len name))), Z.of_N (snd (place hdr limit (len name)))).
+Proof. exact place_is_go. Qed.
+Print Assumptions C10_place_is_the_go_code.
 
 (* ---- record placement: every allocation limit and every name length 1..4096
    for which uint32 arithmetic does not wrap (limit + 32 KiB <= 4 GiB; the
